@@ -3,7 +3,7 @@ import io
 from codec_common import *
 from lib import observe_call
 
-GEN = ["EstructParams", "Cp037"]
+GEN = ["EstructParams", "Cp037", "TextCodec"]
 RULE = ("complete enumeration of the finite space {13 USAGE spellings} x {signed, unsigned} x {(m,n) | 1<=m+n<=18} = 4914 configurations, each with "
         "eight reports (calcsize, decoder acceptance of that width, schema maxLength/minLength, Location size, record end, Struct.calcsize, "
         "TextUnpacker.calcsize), pictures printed alternately with and without repeat notation; plus X(k)/A(k) for k<=40. "
